@@ -316,7 +316,8 @@ func TestVerif_C29(t *testing.T) {
 			}
 			c.AddStates(int64(st.Executions))
 		}, nil)
-		c29FieldPart(c) // second family: index/field level with lazy view/fragment creation
+		c29FieldPart(c)     // second family: index/field level with lazy view/fragment creation
+		c29TranslatePart(c) // third family: the key-translation store behind keyed requests
 		c.AddValidated(c.Evaluations)
 		c.Assume("lock-level interleavings only (channel hand-offs, atomics and lock-free regions are not split); Go memory model semantics under toolchain go1.26.8 (testing/synctest), not the pinned go1.23.5; data races are NOT decided by this exploration (see the auxiliary -race pass)")
 		code := c.Finish()
